@@ -111,11 +111,42 @@ class Mon(Driver):
                     yield ev
             p.events = events
             w.hooks["key"] = lambda world: (world.evfault_fired,)
+        sf = job.get("stfault")
+        w.stfault = [0, 0, 0]           # storage writes seen, fault fired, engine steps completed since it fired
+        if sf is not None:
+            # ONE storage write fails (database locked / disk full), then storage works again
+            def gate(kind, tag, eid):
+                if w.stfault[1]:
+                    return
+                if w.stfault[0] == sf["at"]:
+                    w.stfault[1] = 1
+                    w.stfault[2] = -1
+                    raise OSError("storage write failed (transient)")
+                w.stfault[0] += 1
+            w.storage.gate = gate
+            w.hooks["key"] = lambda world: tuple(world.stfault)
+            inner_step = w.step
+
+            def step(which):            # (kept in the world, not in on_step: replays do not run monitors)
+                fired = w.stfault[1]
+                try:
+                    return inner_step(which)
+                finally:
+                    if fired and which == "S":
+                        w.stfault[2] = min(w.stfault[2] + 1, 2)
+                    elif not fired and w.stfault[1]:
+                        w.stfault[2] = 0
+            w.step = step
         return w
 
     def on_step(self, w, a, pre):
         if a not in ("IL", "IR", "S"):
             return []
+        if w.stfault[1]:
+            # the failed write is retried by a later commit: storage is judged again once a sync step that started after
+            # the failure has completed (the failing step itself, and intake steps that commit nothing, are not judged)
+            if w.stfault[2] < 1:
+                return []
         return [viol(n, a, d) for n, d in check_storage(w)[:3]]
 
     def on_terminal(self, w):
@@ -143,6 +174,14 @@ def jobs(tier):
             for after in (1, 2):
                 out.append({"prop": PROP, "cfg": cfg, "order": "asc", "base": "B1", "scripts": A.stamp(sc),
                             "opts": {"storage": True, "users_first": True}, "evfault": {"side": side, "after": after},
+                            "mode": {"k": None, "cap": 1500, "depth": 60, "audit": 0}})
+    # one transient storage write failure at the k-th write of the history (multi-entry commits: folder rename re-paths kids)
+    for cfg in (["oo", "po"] if tier == "quick" else ["oo", "po", "pp"]):
+        for sc in ([[["rename", "d", "e"]], []], [[], [["rename", "d", "e"]]], [[["create", "c"], ["write", "a"]], []],
+                   [[["mkdir", "e"], ["create", "e/c"]], []]):
+            for at in range(6 if tier == "quick" else 10):
+                out.append({"prop": PROP, "cfg": cfg, "order": "asc", "base": "B1", "scripts": A.stamp(sc),
+                            "opts": {"storage": True, "users_first": True}, "stfault": {"at": at},
                             "mode": {"k": None, "cap": 1500, "depth": 60, "audit": 0}})
     if tier == "quick":
         # a slice of the path-id flavour as well
